@@ -17,7 +17,18 @@ def main():
     from axv import props
     if a.replay:
         return props.replay(a.prop, a.replay)
-    rc = props.run(a.prop, a.tier, seed, t0)
+    try:
+        rc = props.run(a.prop, a.tier, seed, t0)
+    except (Exception, SystemExit) as e:
+        # a machinery failure (lost anchor in an extractor, tool crash, unsupported construct) is never an alarm
+        if isinstance(e, SystemExit) and isinstance(e.code, int):
+            raise
+        import traceback
+        tb = traceback.format_exc()
+        sys.stderr.write(tb)
+        o = core.ob("machinery|%s" % a.prop, [a.prop], "undecided", "none", "check.py",
+                    detail="the check could not be carried out on this tree (lost anchor / unsupported construct / tool failure): %s" % (str(e) or tb[-400:]))
+        rc = core.finish(a.prop, a.tier, seed, [o], t0, dict(checker_cmd="python3 run/check.py", explanation="machinery failure: nothing was decided"), level_if_all="other")
     if os.environ.get("AXV_EXPORT_CACHE"):
         from axv import kanirun
         print("exported %d cache entries" % kanirun.export_used())
